@@ -17,7 +17,9 @@ arbitrary bytes (exploration by the harness only).
 -/
 import SophiaModel.Model.Backend
 import SophiaModel.Model.ParserGlue
+import SophiaModel.Model.ParserContract
 import SophiaModel.Gen.Regexes
+import SophiaModel.Gen.ParserWiring
 
 namespace SophiaProofs.C08
 open SophiaModel Re Backend
@@ -38,6 +40,24 @@ theorem rio_var_sub_validator : ∀ w, Matches rioVar w → Matches Gen.VARNAME 
 accepted by `LanguageTag::new`. -/
 theorem rio_lang_sub_validator : ∀ w, Matches rioLang w → Matches Gen.LANG_TAG w :=
   decideIncl_sound _ _ (by native_decide)
+
+/-- Turtle, TriG, generalized TriG do not hand over the label they read but `disambiguate label`
+(rio_turtle's `BlankNodeIdGenerator`: labels shaped like its own generated ones, `riog` + 8 digits + `d`*, get one
+more `d`).  The relabelled ones are valid too … -/
+theorem riog_suffix_sub_validator : ∀ w, Matches (.cat riogShape (chr 'd')) w → Matches Gen.BNODE_ID w :=
+  decideIncl_sound _ _ (by native_decide)
+
+/-- … so what is handed over is accepted by `BnodeId::new` whichever branch `disambiguate` takes. -/
+theorem ttl_bnode_disambiguated_sub_validator :
+    ∀ w, Matches rioBnode w → Matches Gen.BNODE_ID (disambiguate w) := by
+  intro w h
+  unfold disambiguate
+  by_cases hs : matchB riogShape w = true
+  · rw [if_pos hs]
+    apply riog_suffix_sub_validator
+    exact Matches.cat ((matchB_iff _ _).1 hs) (Matches.cls (by decide))
+  · rw [if_neg hs]
+    exact rio_bnode_sub_validator w h
 
 /-- JSON-LD: generated blank node labels are accepted by `BnodeId::new`. -/
 theorem jsonld_bnode_sub_validator : ∀ w, Matches jsonldBnode w → Matches Gen.BNODE_ID w :=
@@ -96,6 +116,19 @@ theorem xml_nodeid_sub_validator_partial :
     ∀ w, Matches xmlNodeIdNoTrailingDot w → Matches Gen.BNODE_ID w :=
   decideIncl_sound _ _ (by native_decide)
 
+/-! ### JSON-LD blank node properties under `produce_generalized_rdf` -/
+
+def JsonldBnodePredSubValidator : Prop := ∀ w, Matches jsonldBnodePred w → Matches Gen.BNODE_ID w
+/-- `{"@id":"x:s","_:a:b":"o"}` parsed with `produce_generalized_rdf`: the predicate is the blank node `a:b`
+(`rdf_types::BlankId` allows `:`; node-map generation does not relabel properties). -/
+theorem jsonld_bnode_pred_sub_validator_refuted : ¬ JsonldBnodePredSubValidator := fun h =>
+  absurd (h (ofStr "a:b") (by decide)) (by decide)
+
+/-- without `:` every such label is accepted by `BnodeId::new` -/
+theorem jsonld_bnode_pred_sub_validator_partial :
+    ∀ w, Matches jsonldBnodePredNoColon w → Matches Gen.BNODE_ID w :=
+  decideIncl_sound _ _ (by native_decide)
+
 /-! ### rio/src/parser.rs: errors are mapped, never unwrapped -/
 section Glue
 open SophiaModel.ParserGlue
@@ -125,7 +158,166 @@ theorem glue_source_error (s : St) (st : Step) (rest : List Step) (h : s.script 
 theorem glue_end (sink : Option Nat) (n : Nat) : (trySome sink ⟨[], n⟩) = (Out.okFalse, ⟨[], n⟩) := rfl
 
 example : run (some 2) 4 ⟨[⟨2, false⟩, ⟨0, true⟩, ⟨3, false⟩], 0⟩ = [.okTrue, .sourceErr, .sinkErr, .okFalse] := by decide
+
+/-! The three statements above are about ONE call and follow the definition closely.  What the property
+needs is about the whole stream (`try_for_each_item` / the harness keep calling): -/
+
+/-- one call on a non-exhausted back-end consumes exactly one `parse_step` and answers neither
+`Ok(false)` nor a panic -/
+theorem trySome_step (sink : Option Nat) (st : Step) (rest : List Step) (d : Nat) :
+    ∃ d', (trySome sink ⟨st :: rest, d⟩).2 = ⟨rest, d'⟩ ∧ (trySome sink ⟨st :: rest, d⟩).1 ≠ Out.panic
+      ∧ (trySome sink ⟨st :: rest, d⟩).1 ≠ Out.okFalse := by
+  unfold trySome
+  cases sink with
+  | none => by_cases hf : st.fails = true <;> simp [hf]
+  | some k =>
+    by_cases hk : d ≤ k ∧ k < d + st.items
+    · simp [hk]
+    · by_cases hf : st.fails = true <;> simp [hk, hf]
+
+theorem glue_run_exhausted (sink : Option Nat) (n d : Nat) : run sink n ⟨[], d⟩ = List.replicate n Out.okFalse := by
+  induction n with
+  | zero => rfl
+  | succ n ih => simp [run, trySome, ih, List.replicate_succ]
+
+/-- TERMINATION and NO PANIC of the stream, for every script, every callback failure position and however long the
+caller goes on: the first `script.length` calls answer `Ok(true)` or an error (never `Ok(false)`, never a
+panic), every later call answers `Ok(false)`.  So a back-end whose `parse_step` sequence is finite gives a
+finite stream, and errors never end it early with a false "end of input". -/
+theorem glue_run_terminates (sink : Option Nat) : ∀ (script : List Step) (d m : Nat),
+    ∃ outs, run sink (script.length + m) ⟨script, d⟩ = outs ++ List.replicate m Out.okFalse
+      ∧ outs.length = script.length ∧ Out.okFalse ∉ outs ∧ Out.panic ∉ outs := by
+  intro script
+  induction script with
+  | nil => intro d m; exact ⟨[], by simp [glue_run_exhausted], rfl, by simp, by simp⟩
+  | cons st rest ih =>
+    intro d m
+    obtain ⟨d', h2, h1, h0⟩ := trySome_step sink st rest d
+    obtain ⟨outs, e, l, nf, np⟩ := ih d' m
+    refine ⟨(trySome sink ⟨st :: rest, d⟩).1 :: outs, ?_, by simp [l], ?_, ?_⟩
+    · have : (st :: rest).length + m = (rest.length + m) + 1 := by simp; omega
+      rw [this]
+      simp only [run, h2, e, List.cons_append]
+    · intro hm; rcases List.mem_cons.1 hm with h | h
+      · exact h0 h.symm
+      · exact nf h
+    · intro hm; rcases List.mem_cons.1 hm with h | h
+      · exact h1 h.symm
+      · exact np h
+
+/-- no call ever panics, whatever the state -/
+theorem glue_run_no_panic (sink : Option Nat) : ∀ (n : Nat) (s : St), Out.panic ∉ run sink n s := by
+  intro n
+  induction n with
+  | zero => intro s; simp [run]
+  | succ n ih =>
+    intro s
+    obtain ⟨script, d⟩ := s
+    cases script with
+    | nil => rw [glue_run_exhausted]; simp
+    | cons st rest =>
+      obtain ⟨d', h2, h1, _⟩ := trySome_step sink st rest d
+      simp only [run]
+      intro hm
+      rcases List.mem_cons.1 hm with h | h
+      · exact h1 h.symm
+      · exact ih _ h
+
+/-- with a callback that never fails the stream of outcomes IS the script: every back-end error is
+reported, as `SourceError`, exactly where it happened; nothing is swallowed, nothing invented -/
+theorem glue_run_faithful : ∀ (script : List Step) (d : Nat),
+    run none script.length ⟨script, d⟩ = script.map (fun st => if st.fails then Out.sourceErr else Out.okTrue) := by
+  intro script
+  induction script with
+  | nil => intro d; rfl
+  | cons st rest ih =>
+    intro d
+    simp only [List.length_cons, run, List.map_cons]
+    have : trySome none ⟨st :: rest, d⟩ = (if st.fails then Out.sourceErr else Out.okTrue, ⟨rest, d + st.items⟩) := by
+      unfold trySome; by_cases hf : st.fails = true <;> simp [hf]
+    rw [this]
+    simp only [ih]
+
+example : run none 5 ⟨[⟨1, false⟩, ⟨0, true⟩, ⟨2, true⟩], 7⟩ = [.okTrue, .sourceErr, .sourceErr, .okFalse, .okFalse] := by decide
 end Glue
+
+/-! ### the contract over the function the driver executes -/
+section Contract
+open SophiaModel.ParserContract
+
+theorem abs_sub_iriV (syn : String) (w : List Nat) (h : Matches rioIriAbs w) :
+    Matches (if strict syn then Gen.IRI_REGEX else Gen.IRI_REF_REGEX) w := by
+  cases strict syn
+  · exact Matches.altL (oxiri_abs_sub_validator w h)
+  · exact oxiri_abs_sub_validator w h
+
+/-- For every recogniser class of the `safe` list and every syntax: a token the back-end accepts is handed
+over as a string the demanded validator accepts (after lower-casing for language tags, after `riog…`
+relabelling for Turtle-family blank nodes; "absolute" demanded of strict syntaxes). -/
+theorem specOf_contract (syn : String) (c : Cls) (hs : c.safe = true) :
+    ∀ w, (specOf syn c).accept w = true → Matches (specOf syn c).validator ((specOf syn c).out w) := by
+  intro w ha
+  cases c with
+  | bnode =>
+    have hb := (matchB_iff _ _).1 ha
+    show Matches Gen.BNODE_ID ((if turtleLike syn then disambiguate else id) w)
+    by_cases ht : turtleLike syn = true
+    · rw [if_pos ht]; exact ttl_bnode_disambiguated_sub_validator w hb
+    · rw [if_neg ht]; exact rio_bnode_sub_validator w hb
+  | lang => exact rio_lang_sub_validator _ ((matchB_iff _ _).1 ha)
+  | var => exact rio_var_sub_validator _ ((matchB_iff _ _).1 ha)
+  | iriRef => exact oxiri_ref_sub_validator _ ((matchB_iff _ _).1 ha)
+  | iriAbs => exact abs_sub_iriV syn _ ((matchB_iff _ _).1 ha)
+  | dt => exact oxiri_abs_sub_validator _ ((matchB_iff _ _).1 ha)
+  | nodeid | iriGtrig | pname | pnameD | pnameDt | xmlns | jsonldPred => exact absurd hs (by decide)
+
+/-- The same about `spec`, the function `smd_C08` evaluates for every `tok` request (so the differential ties
+this statement to the code): whenever the driver answers `accepted=1` for a (syntax, kind) of the safe
+list it answers `valid=1`.  The full statement (without `safe`) is false: see the `…_refuted` theorems. -/
+theorem spec_contract (syn kind : String) (sp : Spec) (h : spec syn kind = some sp) (hs : safe syn kind = true) :
+    ∀ w, sp.accept w = true → matchB sp.validator (sp.out w) = true := by
+  intro w ha
+  unfold spec at h
+  unfold safe at hs
+  cases hc : classify syn kind with
+  | none => rw [hc] at h; simp at h
+  | some c =>
+    rw [hc] at h hs
+    simp only [Option.map_some, Option.some.injEq] at h
+    subst h
+    exact (matchB_iff _ _).2 (specOf_contract syn c hs w ha)
+
+/-- `SpecContractFull` — the property's clause at full strength over the model — is refuted -/
+def SpecContractFull : Prop :=
+  ∀ syn kind sp, spec syn kind = some sp → ∀ w, sp.accept w = true → matchB sp.validator (sp.out w) = true
+theorem spec_contract_full_refuted : ¬ SpecContractFull := fun h =>
+  have hc : classify "gtrig" "iri" = some .iriGtrig := by decide
+  have hsp : spec "gtrig" "iri" = some (specOf "gtrig" .iriGtrig) := by unfold spec; rw [hc]; rfl
+  absurd (h "gtrig" "iri" (specOf "gtrig" .iriGtrig) hsp (ofStr "a b") (by decide)) (by decide)
+
+-- non-vacuity: the safe list covers the positions / attributes the harness drives, the exclusions are the findings
+example : (spec "trig" "bnode_g").isSome = true ∧ safe "trig" "bnode_g" = true := by decide
+example : (spec "gnq" "iri_q").isSome = true ∧ safe "gnq" "iri_q" = true := by decide
+example : safe "xml" "resource" = true ∧ safe "nq" "dt_q" = true ∧ safe "xml" "lang_p" = true := by decide
+example : safe "gtrig" "iri" = false ∧ safe "ttl" "pname_o" = false ∧ safe "xml" "nodeid_o" = false := by decide
+example : (specOf "ttl" .bnode).accept (ofStr "riog00000001") = true
+    ∧ (specOf "ttl" .bnode).out (ofStr "riog00000001") = ofStr "riog00000001d" := by decide
+end Contract
+
+/-! ### the wiring the theorems rely on (regenerated from /repo by tools/extractors/c08.py) -/
+
+open SophiaModel.Gen.ParserWiring in
+/-- The validators are `REGEX.is_match` and nothing else; `new_unchecked` validates in debug builds only and that is
+the only place where debug and release differ; each rio accessor re-validates with the validator `specOf` demands
+(`iri` → `IriRef`: the accessor itself does not demand "absolute", the property does).  A change of any of these
+in /repo regenerates the table and fails THIS obligation: the inclusion theorems would otherwise keep holding
+about regexes that no longer decide validity. -/
+theorem wiring_as_modelled :
+    bnodeNewIsRegex = true ∧ varNewIsRegex = true ∧ langNewIsRegex = true ∧ iriNewIsAbsolute = true
+    ∧ iriRefNewIsValid = true ∧ uncheckedValidatesInDebugOnly = true ∧ debugAssertionSites = 1
+    ∧ accessorValidators = [("iri", "IriRef"), ("bnode_id", "BnodeId"), ("variable", "VarName"), ("datatype", "Iri"),
+        ("language_tag", "LanguageTag")]
+    ∧ modelUncheckedCalls = 5 := by decide
 
 /-! ### non-vacuity: the hypotheses are satisfiable by the shapes the property names -/
 example : Matches rioBnode (ofStr "a.b-c.1") := by decide
@@ -142,5 +334,7 @@ example : ¬ Matches Oxiri.ref (ofStr "//:!") := by decide
 example : Matches Gen.IRI_REGEX (ofStr "http://[v7.a:b]/") := by decide
 example : Matches xmlNodeIdNoTrailingDot (ofStr "a.b") := by decide
 example : Matches jsonldBnode (ofStr "12") := by decide
+example : Matches jsonldBnodePredNoColon (ofStr "b-1é") := by decide
+example : Matches jsonldBnodePred (ofStr ":") := by decide
 
 end SophiaProofs.C08
